@@ -355,7 +355,7 @@ func (c *Ctx) placeOf(fn *ssa.Function, rename map[*ssa.Function]string) string 
 		names = append(names, n)
 	}
 	sort.Strings(names)
-	return typeDesc(fn.Signature) + " <- " + strings.Join(names, ",")
+	return canonTypeString(fn.Signature) + " <- " + strings.Join(names, ",")
 }
 
 func (c *Ctx) writeSymbols(path string) error {
